@@ -11,7 +11,9 @@ import (
 	"io/fs"
 	"os"
 	"path/filepath"
+	"sync/atomic"
 	"syscall"
+	"time"
 
 	"github.com/google/go-tdx-guest/client"
 	labi "github.com/google/go-tdx-guest/client/linuxabi"
@@ -277,6 +279,27 @@ func runC15(r *mc.Run) {
 		}
 	}
 
+	// a device that returns from the quote request with the status still "in flight" and completes the buffer a moment
+	// later (from its own thread): what counts is the status when the request returned — an error, whatever happens to
+	// the buffer afterwards
+	for _, lateMs := range []int{1, 3, 6} {
+		id := fmt.Sprintf("device/in-flight-at-return,completed-%dms-later", lateMs)
+		if !r.Want(id) {
+			continue
+		}
+		d := &c15lateDev{c15dev: c15dev{repBytes: repA, status: 0xffffffffffffffff, outLen: 0, content: 1, quote: quote}, after: time.Duration(lateMs) * time.Millisecond}
+		var got []byte
+		var err error
+		func() { defer world.Recover(&err); got, err = client.GetRawQuote(d, rds[1]) }()
+		d.wait()
+		out := verdict(err)
+		if err == nil {
+			r.Violate("device:in-flight-accepted-after-late-completion", id, fmt.Sprintf("the quote request returned with the in-flight status, yet GetRawQuote reports success (%d bytes)", len(got)), nil)
+			out = "accept!"
+		}
+		r.Eval(id, true, "device-late:"+out)
+	}
+
 	// two-call histories: what the first caller got must not change when a later request is made
 	{
 		quoteB := append([]byte(nil), quote...)
@@ -464,4 +487,35 @@ func c15Parsed(r *mc.Run, id string, q any, qerr error, raw []byte, rerr error) 
 		}
 	}
 	r.Eval(id, true, "getquote:"+out)
+}
+
+// c15lateDev answers the quote request with the in-flight status and, after a delay, writes a completed quote into
+// the same buffer from another goroutine (as an asynchronous VMM would).
+type c15lateDev struct {
+	c15dev
+	after time.Duration
+	done  chan struct{}
+}
+
+func (d *c15lateDev) Ioctl(cmd uintptr, arg any) (uintptr, error) {
+	res, err := d.c15dev.Ioctl(cmd, arg)
+	if a, ok := arg.(*labi.TdxQuoteReq); ok {
+		if h, ok := a.Buffer.(*labi.TdxQuoteHdr); ok {
+			d.done = make(chan struct{})
+			go func() {
+				defer close(d.done)
+				time.Sleep(d.after)
+				copy(h.Data[:], d.quote)
+				atomic.StoreUint32(&h.OutLen, uint32(len(d.quote)))
+				atomic.StoreUint64(&h.Status, 0)
+			}()
+		}
+	}
+	return res, err
+}
+
+func (d *c15lateDev) wait() {
+	if d.done != nil {
+		<-d.done
+	}
 }
